@@ -219,6 +219,140 @@ UNITS.append(
     )
 )
 
+
+# ---- new_ltf_plan / vectorized_ltf_plan: vectorised finalisation (np.round = half-to-even) ----------------
+GD.update(
+    {
+        # opaque: bins carry K == NAVGE(L) by congruence; the definition is revealed only where it is needed
+        "NAVGE": {
+            "opaque": "lambda l: ite(rhe((N - l) / ((1 - olap) * l) + 1) <= N - l + 1, rhe((N - l) / ((1 - olap) * l) + 1), N - l + 1)",
+            "reveal": [".count", "lemma.navg_capped", "lemma.shift_at_least_one"],
+        },
+        "SHIFTV": "lambda l, k: ite(k > 1, (N - l) / (k - 1), 0)",
+    }
+)
+V_LEMMAS = {
+    "lemma.closed_form": "len(result['D'][i]) == result['K'][i] and result['K'][i] == NAVGE(result['L'][i]) and forall(0, len(result['D'][i]), lambda m: result['D'][i][m] == rhe(m * SHIFTV(result['L'][i], result['K'][i])))",
+    "lemma.navg_capped": "result['K'][i] <= N - result['L'][i] + 1 and result['K'][i] >= 1",
+    "lemma.shift_at_least_one": "implies(result['K'][i] >= 2, SHIFTV(result['L'][i], result['K'][i]) * (result['K'][i] - 1) == N - result['L'][i] and SHIFTV(result['L'][i], result['K'][i]) >= 1)",
+    "lemma.ideal_positions_in_range": "forall(0, result['K'][i], lambda m: 0 <= m * SHIFTV(result['L'][i], result['K'][i]) and m * SHIFTV(result['L'][i], result['K'][i]) <= N - result['L'][i])",
+    "lemma.within_half_a_sample": "forall(0, result['K'][i], lambda m: result['D'][i][m] - m * SHIFTV(result['L'][i], result['K'][i]) <= 1/2 and m * SHIFTV(result['L'][i], result['K'][i]) - result['D'][i][m] <= 1/2)",
+    "lemma.unit_shift_exact": "implies(SHIFTV(result['L'][i], result['K'][i]) == 1, forall(0, result['K'][i], lambda m: result['D'][i][m] == m))",
+}
+
+NEW_LOOPS = {
+    "0": dict(
+        label="freq",
+        types={"f": "list[real]", "r": "list[real]", "b": "list[real]", "L": "list[int]", "K": "list[int]", "alpha": "real", "stage2": "bool", "stage3": "bool", "dftlen_crossover": "int", "k_stage2": "int", "j": "int", "fi": "real"},
+        variant="fmax - fi",
+        decrease="fresmin",
+        # block contract: whatever the three stages computed, after the clamps Lmin <= dftlen <= N;
+        # the rest of the body is verified for an arbitrary such length
+        cuts={
+            "clamped": dict(at="if dftlen < Lmin:\n    dftlen = Lmin", havoc=["dftlen"], **{"assert": {"length_in_range": "1 <= dftlen and Lmin <= dftlen and dftlen <= N"}}),
+            "counted": dict(
+                at="if nseg == 1:\n    dftlen = N",
+                occurrence=0,
+                havoc=["dftlen", "nseg"],
+                **{"assert": {"length_in_range": "1 <= dftlen and Lmin <= dftlen and dftlen <= N", "count": "nseg == NAVGE(dftlen)", "single_uses_record": "dftlen == N if nseg == 1 else True"}},
+            ),
+            "bmin_enforced": dict(
+                at="if nseg == 1:\n    dftlen = N",
+                occurrence=1,
+                havoc=["dftlen", "nseg"],
+                **{"assert": {"length_in_range": "1 <= dftlen and Lmin <= dftlen and dftlen <= N", "count": "nseg == NAVGE(dftlen)", "single_uses_record": "dftlen == N if nseg == 1 else True", "bin_at_least_bmin": "dftlen * fi >= bmin * fs"}},
+            ),
+        },
+        inv={
+            "lens": "len(r) == len(f) and len(b) == len(f) and len(L) == len(f) and len(K) == len(f) and j == len(f)",
+            "fi_chain": "fi == ite(len(f) == 0, fmin, f[len(f)-1] + r[len(f)-1])",
+            "fi_pos": "fi >= fmin",
+            "counters": "k_stage2 >= 0",
+            "first": "implies(len(f) >= 1, f[0] == fmin)",
+            "bins": "forall(0, len(f), lambda q: 1 <= L[q] and Lmin <= L[q] and L[q] <= N and r[q] * L[q] == fs"
+            " and b[q] * r[q] == f[q] and f[q] < fmax and f[q] >= fmin"
+            " and K[q] == NAVGE(L[q]) and implies(K[q] == 1, L[q] == N)"
+            " and f[q] * L[q] / fs + f[q] / (2*fs) >= bmin)",
+            "steps": "forall(0, len(f) - 1, lambda q: f[q+1] == f[q] + r[q])",
+        },
+    ),
+}
+
+UNITS.append(
+    Unit(
+        id="schedulers.new_ltf_plan",
+        module=M,
+        func="new_ltf_plan",
+        props=["C02", "C03"],
+        setup=args_setup(),
+        ghosts=dict(ARG_GHOSTS),
+        requires=LTF_REQ,
+        loops=NEW_LOOPS,
+        ensures={**PLAN_POST, **V_LEMMAS, **BIN_C02, **BIN_C03},
+        post_hook=bin_ghost,
+        opts={"ghost_defs": GD, "callee": False},
+        raises={},
+    )
+)
+
+
+# vectorized_ltf_plan: the parameter maps are abstracted by a block contract (what every grid point
+# satisfies), the walker loop carries the per-bin facts, the finalisation is shared with new_ltf_plan
+MAP_FACTS = {
+    "lengths": "len(r_map) == len(L_map) and len(K_map) == len(L_map)",
+    "length_in_range": "forall(0, len(L_map), lambda g: 1 <= L_map[g] and Lmin <= L_map[g] and L_map[g] <= N)",
+    "dft_constraint": "forall(0, len(L_map), lambda g: r_map[g] * L_map[g] == fs)",
+    "count": "forall(0, len(L_map), lambda g: K_map[g] == NAVGE(L_map[g]))",
+    "single_uses_record": "forall(0, len(L_map), lambda g: L_map[g] == N if K_map[g] == 1 else True)",
+}
+VEC_LOOPS = {
+    "0": dict(
+        label="walk",
+        types={"f_out": "list[real]", "r_out": "list[real]", "L_out": "list[int]", "K_out": "list[int]", "current_f": "real"},
+        variant="fmax - current_f",
+        decrease="rmin",
+        inv={
+            "lens": "len(r_out) == len(f_out) and len(L_out) == len(f_out) and len(K_out) == len(f_out)",
+            "chain": "current_f == ite(len(f_out) == 0, fmin, f_out[len(f_out)-1] + r_out[len(f_out)-1])",
+            "pos": "current_f >= fmin",
+            "first": "implies(len(f_out) >= 1, f_out[0] == fmin)",
+            "bins": "forall(0, len(f_out), lambda q: 1 <= L_out[q] and Lmin <= L_out[q] and L_out[q] <= N and r_out[q] * L_out[q] == fs"
+            " and f_out[q] < fmax and f_out[q] >= fmin and K_out[q] == NAVGE(L_out[q]) and implies(K_out[q] == 1, L_out[q] == N))",
+            "steps": "forall(0, len(f_out) - 1, lambda q: f_out[q+1] == f_out[q] + r_out[q])",
+        },
+    ),
+}
+BIN_C03V = {k: v for k, v in BIN_C03.items() if k != "C03.bmin_up_to_rounding_of_L"}
+
+UNITS.append(
+    Unit(
+        id="schedulers.vectorized_ltf_plan",
+        module=M,
+        func="vectorized_ltf_plan",
+        props=["C02", "C03"],
+        setup=args_setup(),
+        ghosts=dict(ARG_GHOSTS),
+        requires=LTF_REQ,
+        loops=VEC_LOOPS,
+        ensures={**PLAN_POST, **V_LEMMAS, **BIN_C02, **BIN_C03V},
+        post_hook=bin_ghost,
+        opts={
+            "ghost_defs": GD,
+            "callee": False,
+            "cuts": {
+                "lengths": dict(
+                    at="L_grid[K_grid == 1] = N",
+                    havoc=["L_grid"],
+                    **{"assert": {"integral_in_range": "forall(0, len(L_grid), lambda g: L_grid[g] == floor(L_grid[g]) and 1 <= L_grid[g] and Lmin <= L_grid[g] and L_grid[g] <= N)",
+                    "single_uses_record": "forall(0, len(L_grid), lambda g: L_grid[g] == N if rhe((N - L_grid[g]) / (xov * L_grid[g]) + 1) == 1 else True)"}},
+                ),
+                "maps": dict(at=["K_map = np.minimum(K_map, N - L_map + 1)", "L_map = L_grid.astype(np.int64)"], havoc=["r_map", "K_map", "L_map"], **{"assert": MAP_FACTS}),
+            },
+        },
+        raises={},
+    )
+)
+
 for _outer in ("ltf_plan",):
     UNITS.append(
         Unit(
